@@ -94,7 +94,10 @@ func (t *treePipeline) outputProgrammably(w io.Writer, root *Node, cfg *config) 
 		defer close(rootStream)
 		defer verifPoint("feeder.exit", 0, "")
 		verifPoint("feeder.send.pre", 0, verifName(root))
-		rootStream <- root
+		select {
+		case rootStream <- root:
+		case <-ctx.Done(): // nobody will receive any more
+		}
 		verifPoint("feeder.send.post", 0, verifName(root))
 	}()
 	growStream, errcg := t.grower.grow(ctx, rootStream)
@@ -130,7 +133,10 @@ func (t *treePipeline) mkdirProgrammably(root *Node, cfg *config) error {
 		defer close(rootStream)
 		defer verifPoint("feeder.exit", 0, "")
 		verifPoint("feeder.send.pre", 0, verifName(root))
-		rootStream <- root
+		select {
+		case rootStream <- root:
+		case <-ctx.Done(): // nobody will receive any more
+		}
 		verifPoint("feeder.send.post", 0, verifName(root))
 	}()
 	t.grower.enableValidation()
@@ -169,7 +175,10 @@ func (t *treePipeline) verifyProgrammably(root *Node, cfg *config) error {
 		defer close(rootStream)
 		defer verifPoint("feeder.exit", 0, "")
 		verifPoint("feeder.send.pre", 0, verifName(root))
-		rootStream <- root
+		select {
+		case rootStream <- root:
+		case <-ctx.Done(): // nobody will receive any more
+		}
 		verifPoint("feeder.send.post", 0, verifName(root))
 	}()
 	t.grower.enableValidation()
@@ -202,7 +211,10 @@ func (t *treePipeline) walkProgrammably(root *Node, callback func(*WalkerNode) e
 		defer close(rootStream)
 		defer verifPoint("feeder.exit", 0, "")
 		verifPoint("feeder.send.pre", 0, verifName(root))
-		rootStream <- root
+		select {
+		case rootStream <- root:
+		case <-ctx.Done(): // nobody will receive any more
+		}
 		verifPoint("feeder.send.post", 0, verifName(root))
 	}()
 	growStream, errcg := t.grower.grow(ctx, rootStream)
